@@ -19,7 +19,7 @@ def run(run):
     with open(p, "w") as f:
         f.write("SPECIFICATION GenSpec\nCHECK_DEADLOCK FALSE\nCONSTANTS\n  MS = %d\n" % ms)
     cp = os.path.join(out, "cases.ndjson")
-    ncases = run.gen("gen", SPEC, "MeasuresGen", p, cp, workers=1, timeout=3000, require=["shape", "line", "len", "near", "buffer", "far", "sh="])
+    ncases = run.gen("gen", SPEC, "MeasuresGen", p, cp, workers=1, timeout=3000, require=["shape", "line", "len", "box", "near", "buffer", "far", "sh="])
     tr1 = os.path.join(out, "trace_replay.ndjson")
     run.drive(["c03", "replay", cp, tr1], timeout=3000)
     nrand = 500 if quick else 20000
